@@ -4,3 +4,5 @@ import H4.Props.C06
 import H4.Props.C16
 import H4.Props.C13Atom
 import H4.Props.C04Chunk
+import H4.Props.C08
+import H4.Props.C11
